@@ -82,8 +82,12 @@ def protocol_string(r):
             ln = r.choice(["", " ", "plain text", "x"])
         lines.append(ln)
     s = "\n".join(lines) + r.choice(["", "", "\n", "\n\n"])
-    if "\n;" not in s and "'''" not in s and not s.startswith(";"):
+    if "\n;" not in s and not s.startswith(";"):
         s = s + "\n;forced" + r.choice(["", "\n"])
+    # cif_write prefers a triple-quoted string for multi-line text: only a value holding BOTH triple delimiters (or ending in the
+    # quote character that would delimit it) must go into a text field — two in three get them
+    if r.random() < 0.67 and not ("'''" in s and '"""' in s):
+        s = "'''" + '"""' + "\n" + s
     return [ord(c) for c in s]
 
 
